@@ -7,4 +7,5 @@ CONSTANTS
   Pens = {0, 1}
 INVARIANT Defined
 INVARIANT StepTheorems
+INVARIANT SearchAgrees
 CHECK_DEADLOCK FALSE
